@@ -454,4 +454,15 @@ class SeveralPerFile(C07.SeveralPerFile):
         return vs
 
 
-FAMILIES = [SeveralPerFile(), OneFileTwoNames(), GrowingSource(), Graphs(), Suppliers(), Shapes(), TwoDirectories()]
+def _file_edges():
+    from mc.checks import C01
+
+    class FileEdges(C01.FileEdges):
+        """The modules of an import chain are read one after the other by one parser: each is taken from the source that holds it
+        and compiled, whatever the file read before it ended in (a comment without line end, an unclosed --, nothing)."""
+        prefix = 'C08'
+        name = 'file-edges-along-an-import-chain'
+    return FileEdges()
+
+
+FAMILIES = [SeveralPerFile(), OneFileTwoNames(), GrowingSource(), Graphs(), Suppliers(), Shapes(), TwoDirectories(), _file_edges()]
